@@ -565,7 +565,7 @@ QRING = [["rot_q1", "try_send", "try_send", "drain"],
 # and blocked on by Y
 STALE_FILL = ["send", "send_timeout", "send_opt_timeout", "try_send", "try_send_opt", "try_send_rt", "try_send_opt_rt", "asend_start0"]
 STALE_BLOCK = ["send_timeout", "send_opt_timeout", "asend_start1"]
-STALE2 = [["try_send", "try_send", "try_recv", x, y, "try_send", "try_recv", "try_recv"] + (["asend_poll1w1", "try_recv"] if y == "asend_start1" else [])
+STALE2 = [["try_send", "try_send", "try_recv", x, y, "try_send", "try_recv"] + (["asend_poll1w1"] if y == "asend_start1" else [])
           for y in STALE_BLOCK for x in STALE_FILL]
 # a non-blocking call meets a parked operation of its own side (must be refused / find nothing) or of the other side
 TRYPARK = [["try_send", "asend_start0", v, "try_recv", "asend_poll0w0", "try_recv", "try_recv"]
@@ -579,6 +579,8 @@ REWAKE = [["asend_start0", "asend_poll0w1", "try_recv", "asend_poll0w1"],
           ["arecv_start0", "arecv_poll0w1", "try_send", "arecv_poll0w1"],
           ["asend_start0", "asend_poll0w1", "asend_poll0w0", "drain", "asend_poll0w0"]]
 SMALLT = ["u8", "u32", "usize", "Pad", "TagS", "TagP", "TagL", "Big"]
+# a send future only stays pending on a channel without room: capacity per sequence
+REWAKE_AT = [(REWAKE[0], [0, 0]), (REWAKE[1], [1, 1]), (REWAKE[2], [0, 1]), (REWAKE[3], [0, 0])]
 
 
 # ---- fourth wave ----
@@ -587,6 +589,8 @@ RKINDS = ["try_recv", "try_recv_rt", "recv", "recv_timeout"]
 REFILL3 = [["try_send", "asend_start0", "asend_start1", rk, "try_recv", "try_recv", "try_recv"] for rk in RKINDS] + [
     ["try_send", "asend_start0", "asend_start1", "arecv_start0", "try_recv", "try_recv", "try_recv"],
     ["try_send", "asend_start0", "asend_start1", "stream_start", "try_recv", "try_recv", "try_recv"]]
+# short form for the capacity property: the over-admission is visible right after the receive
+REFILL3S = [x[:4] + ["try_recv"] for x in REFILL3]
 # the head waiter replaces its waker while others wait behind it: it keeps its place
 REWAKE2 = [["asend_start0", "asend_start1", "asend_poll0w1", "try_recv", "try_recv", "asend_poll0w1", "asend_poll1w1"],
            ["try_send", "asend_start0", "asend_start1", "asend_poll0w1", "drain", "asend_poll0w1", "asend_poll1w1"],
@@ -599,8 +603,11 @@ DISCSEND = [["try_send", "drop_r", sk, "try_send"] for sk in SKINDS]
 # every kind of operation begun after close
 CLOSEDOPS = [["try_send", "close_s", rk, sk] for rk, sk in zip(RKINDS + ["drain", "arecv_start0", "stream_start"], SKINDS)]
 # drain with two parked senders (with and without a buffered value)
+DRAIN2_AT = None
 DRAIN2 = [["asend_start0", "asend_start1", "drain", "asend_poll1w1", "asend_poll0w1", "drain"],
           ["try_send", "asend_start0", "asend_start1", "drain", "asend_poll0w0", "asend_poll1w1", "try_recv"]]
+DRAIN2_AT = [(DRAIN2[0], [0]), (DRAIN2[1], [1, 0])]
+REWAKE2_AT = [(REWAKE2[0], [0]), (REWAKE2[1], [1]), (REWAKE2[2], [0, 1])]
 
 
 # every clone flavour (clone, clone_sync / clone_async, through as_async) after close and after the other side is gone:
@@ -611,6 +618,73 @@ CLONEPACK_DISC = [["try_send", "drop_s", "clone_r1", "clone_r3", "try_recv", "tr
                   ["drop_s", "clone_r0", "clone_r2", "try_recv"],
                   ["drop_r", "clone_s1", "clone_s3", "try_send"],
                   ["try_send", "drop_r", "clone_s0", "clone_s2", "try_send_opt"]]
+
+
+def stateops():
+    """systematic state x operation matrix: a prefix builds a channel state, one operation of every kind is applied,
+    a suffix observes what is left (drains the buffer, polls the parked futures).  -> [(cap, labels)]"""
+    states = [  # (name, cap, prefix, parked futures to poll afterwards)
+        ("empty", 1, [], []),
+        ("empty0", 0, [], []),
+        ("partial", 2, ["try_send"], []),
+        ("full", 1, ["try_send"], []),
+        ("full2", 2, ["try_send", "try_send"], []),
+        ("full_s1", 1, ["try_send", "asend_start0"], ["asend_poll0w0"]),
+        ("zero_s1", 0, ["asend_start0"], ["asend_poll0w0"]),
+        ("full_s2", 1, ["try_send", "asend_start0", "asend_start1"], ["asend_poll0w0", "asend_poll1w1"]),
+        ("zero_s2", 0, ["asend_start0", "asend_start1"], ["asend_poll0w0", "asend_poll1w1"]),
+        ("r1", 1, ["arecv_start0"], ["arecv_poll0w0"]),
+        ("zero_r1", 0, ["arecv_start0"], ["arecv_poll0w0"]),
+        ("r2", 1, ["arecv_start0", "arecv_start1"], ["arecv_poll0w0", "arecv_poll1w1"]),
+        ("closed", 2, ["try_send", "close_s"], []),
+        ("nosenders", 2, ["try_send", "clone_r0", "drop_s"], []),
+        ("noreceivers", 2, ["try_send", "clone_s0", "drop_r"], []),
+        ("stale_partial", 2, ["try_send", "try_send", "try_recv"], []),
+        ("stale_empty", 1, ["arecv_start0", "arecv_drop0"], []),
+        ("wrapped", 1, ["rot_w3", "arecv_start0", "arecv_start1"], ["arecv_poll0w0", "arecv_poll1w1"]),
+    ]
+    ops = ["send", "send_timeout", "send_opt_timeout", "try_send", "try_send_opt", "try_send_rt", "try_send_opt_rt", "asend_start2",
+           "recv", "recv_timeout", "try_recv", "try_recv_rt", "drain", "arecv_start2", "stream_start",
+           "close_s", "close_r", "drop_s", "drop_r", "clone_s1", "clone_r3", "convert_s", "convert_r"]
+    out = []
+    for (name, cap, pre, polls) in states:
+        for op in ops:
+            suf = list(polls)
+            if op == "asend_start2":
+                suf.append("asend_poll2w0") if "asend_poll2w0" in ATOM else None
+            if op == "arecv_start2":
+                suf.append("arecv_poll2w0") if "arecv_poll2w0" in ATOM else None
+            if op == "stream_start":
+                suf.append("stream_pollw0")
+            labs = pre + [op] + ["try_recv", "try_send"] + suf + ["try_recv", "try_recv"]
+            seq = [ATOM[l] for l in labs]
+            # drop ops the syntactic pre-check rejects (handle / future already gone); what the harness assumes
+            # away at run time shows up as a vacuous (not counted) query
+            k = len(pre) + 1
+            while not _legal(seq) and len(labs) > k:
+                # remove the first suffix element that makes it illegal
+                for j in range(k, len(labs)):
+                    if not _legal([ATOM[l] for l in labs[:j + 1]]):
+                        labs = labs[:j] + labs[j + 1:]
+                        break
+                seq = [ATOM[l] for l in labs]
+            if _legal(seq) and len(labs) > len(pre):
+                if _legal([ATOM[l] for l in pre + [op]]):
+                    out.append((cap, labs, name, op))
+    return out
+
+
+def so_seqs(types, states=None, ops=None):
+    out, k = [], 0
+    for (cap, labs, name, op) in stateops():
+        if (states is None or any(name.startswith(x) for x in states)) and (ops is None or op in ops):
+            out.append(seqc(types[k % len(types)], cap, labs))
+        k += 1
+    return out
+
+
+SENDOPS = ["send", "send_timeout", "send_opt_timeout", "try_send", "try_send_opt", "try_send_rt", "try_send_opt_rt", "asend_start2"]
+RECVOPS = ["recv", "recv_timeout", "try_recv", "try_recv_rt", "drain", "arecv_start2", "stream_start"]
 
 
 def zd_handoffs():
@@ -631,6 +705,16 @@ def pick(L, n, seed=0):
 def seqs(labels_list, types, caps):
     out, k = [], 0
     for labs in labels_list:
+        for cap in caps:
+            out.append(seqc(types[k % len(types)], cap, labs))
+            k += 1
+    return out
+
+
+def seqs_at(pairs, types):
+    """pairs: [(labels, caps)]"""
+    out, k = [], 0
+    for labs, caps in pairs:
         for cap in caps:
             out.append(seqc(types[k % len(types)], cap, labs))
             k += 1
@@ -679,12 +763,12 @@ SEQT = DROPPY + ["u32", "Big"]  # sequences: the padded class is slow there (mea
 ALLT = ZST + PLAIN + DROPPY
 
 
-def _raw(prop, full):
+def _raw(prop, full, with_so=True):
     global OBSERVERS
     # len / is_full / counts / is_closed ... after every call: C18 (reference equivalence), C03, C08, C10, C11, C12
     OBSERVERS = prop in ("C18", "C03", "C08", "C10", "C11", "C12")
     B = lambda outers, peers, types, caps: blocked_matrix(outers, lambda o: peers, types, caps, full)
-    L = []
+    L, SO = [], []
     if prop == "C01":
         L += B(SEND_OUTERS, RECV_PEERS, DROPPY, [0, 1])
         L += B(RECV_OUTERS, SEND_PEERS, DROPPY, [0, 1])
@@ -697,7 +781,8 @@ def _raw(prop, full):
         else:
             L += CL + zd_handoffs()
     elif prop == "C02":
-        L += seqs(REFILL3, DROPPY, [1]) + seqs(REWAKE2, DROPPY, [0, 1])
+        SO += so_seqs(DROPPY, ["full_s", "zero_s", "partial", "full2"], RECVOPS) if full else []
+        L += seqs(REFILL3, DROPPY, [1]) + seqs_at(REWAKE2_AT, DROPPY)
         L += seqs([RING1[5]], DROPPY, [1]) + seqs([QRING[1], QRING[4]], DROPPY, [2])
         L += seqs(cur("three", "timedq", "refill"), DROPPY, [0, 1])
         L += seqs(REFILL2, DROPPY, [2])
@@ -709,7 +794,7 @@ def _raw(prop, full):
         if not full:
             L = seqs(cur("three", "timedq"), DROPPY, [0]) + seqs(REFILL2[:4], DROPPY, [2]) + pick(L, 24)
     elif prop == "C03":
-        L += seqs([REFILL3[3], REWAKE2[0], DISCBUF[3], DRAIN2[1]], SEQT, [1])
+        L += seqs([REFILL3[3], REWAKE2[1], DISCBUF[3], DRAIN2[1]], SEQT, [1])
         L += seqs(HALFCLOSE[:2] + [RING1[4], TRYPARK[2]], SEQT, [1]) + seqs([QRING[0], STALE2[1]], SEQT, [2])
         L += B(SEND_OUTERS, RECV_PEERS + KILL_FOR_SENDER + ["OBSERVE"], MIXED, [0, 1])
         L += B(RECV_OUTERS, SEND_PEERS + KILL_FOR_RECEIVER + ["OBSERVE"], MIXED, [0, 1])
@@ -722,7 +807,7 @@ def _raw(prop, full):
             L += WW
     elif prop == "C04":
         L += ptr_units()
-        RW = seqs(REWAKE, SMALLT, [0, 1])
+        RW = seqs_at(REWAKE_AT, SMALLT)
         L += B(["SEND", "SEND_TO"], ["RECV", "TRY_RECV", "DRAIN", "ARECV"], ZST + PLAIN, [0, 1])
         L += B(["RECV", "RECV_TO"], ["SEND", "TRY_SEND", "TRY_SEND_OPT", "ASEND"], ZST + PLAIN, [0, 1])
         A = async_matrix(ZST + PLAIN, [0, 1], full, repoll_opts=(0,))
@@ -733,6 +818,7 @@ def _raw(prop, full):
         else:
             L += SP + RW
     elif prop == "C05":
+        SO += so_seqs(DROPPY, ["closed", "noreceivers", "full", "zero_s"], SENDOPS) if full else []
         L += [i for i in poll_splits(DROPPY, full) if "_sf_diffw" in i.name and "_f1_" in i.name] + seqs(DISCSEND + CLOSEDOPS, DROPPY, [1])
         L += B(SEND_OUTERS, RECV_PEERS + KILL_FOR_SENDER, DROPPY, [0, 1])
         L += [timed_alone(T, c, o) for T in DROPPY for c in (0, 1) for o in ("SEND_TO", "SEND_OPT_TO")]
@@ -768,7 +854,8 @@ def _raw(prop, full):
         if not full:
             L = pick(L, 34)
     elif prop == "C08":
-        L += seqs(REFILL3, DROPPY, [1, 2])
+        SO += so_seqs(DROPPY, ["partial", "full", "zero_s", "stale", "empty0"], SENDOPS + RECVOPS[:4]) if full else []
+        L += seqs(REFILL3S, DROPPY, [1, 2])
         L += seqs(STALE2, DROPPY, [2])
         L += seqs([["try_send", "try_send", "try_send", "try_recv", "try_send"],
                    ["try_send_opt", "try_send_rt", "send_timeout", "drain", "send"],
@@ -802,6 +889,7 @@ def _raw(prop, full):
         else:
             L += CA
     elif prop == "C10":
+        SO += (so_seqs(DROPPY, ["closed"]) + so_seqs(DROPPY, None, ["close_s", "close_r"])) if full else []
         L += seqs(CLONEPACK_CLOSE, DROPPY, [1])
         L += seqs(CLOSEDOPS, DROPPY, [1, 2])
         L += seqs(HALFCLOSE, DROPPY, [0, 1]) + seqs([RING1[2], RING1[6]], DROPPY, [1]) + seqs([RING0[1], RING0[4]], DROPPY, [0])
@@ -821,6 +909,7 @@ def _raw(prop, full):
         else:
             L += CA
     elif prop == "C11":
+        SO += (so_seqs(DROPPY, ["nosenders", "noreceivers"]) + so_seqs(DROPPY, None, ["drop_s", "drop_r"])) if full else []
         L += seqs(CLONEPACK_DISC, DROPPY, [1, 2])
         L += seqs(DISCBUF, DROPPY, [2, None]) + seqs(DISCSEND, DROPPY, [1])
         L += seqs(RING1[:2], DROPPY, [1]) + seqs([RING0[0], RING0[3]], DROPPY, [0]) + seqs([QRING[3]], DROPPY, [2])
@@ -839,6 +928,7 @@ def _raw(prop, full):
         else:
             L += CA
     elif prop == "C12":
+        SO += so_seqs(DROPPY, None, ["close_s", "close_r", "drop_s", "drop_r", "clone_s1", "clone_r3", "convert_s", "convert_r"]) if full else []
         L += seqs(CLONEPACK_CLOSE + CLONEPACK_DISC, DROPPY, [1])
         L += seqs(HALFCLOSE, DROPPY, [0, 1])
         la = life_atoms()
@@ -850,7 +940,7 @@ def _raw(prop, full):
         L += seqs(cur("handles"), DROPPY, [1])
         L += seqs([["clone_s1", "asend_start0", "clone_r2", "drop_r", "drop_s", "asend_poll0w0", "close_r", "clone_s0"]], DROPPY, [0])
         L += seqs(clone_after(), DROPPY, [1])
-        L += seqs(ASYNC_DROPS, DROPPY, [1])
+        L += seqs_at([(ASYNC_DROPS[0], [1]), (ASYNC_DROPS[1], [1]), (ASYNC_DROPS[2], [0]), (ASYNC_DROPS[3], [1])], DROPPY)
     elif prop == "C13":
         timed = ["SEND_TO", "SEND_OPT_TO", "RECV_TO"]
         L += [timed_alone(T, c, o) for T in DROPPY for c in (0, 1) for o in timed]
@@ -863,7 +953,8 @@ def _raw(prop, full):
         else:
             L += TQ
     elif prop == "C14":
-        L += seqs(DRAIN2, DROPPY, [0, 1])
+        SO += so_seqs(DROPPY, None, ["try_send", "try_send_opt", "try_send_rt", "try_send_opt_rt", "try_recv", "try_recv_rt", "drain"]) if full else []
+        L += seqs_at(DRAIN2_AT, DROPPY)
         L += seqs(TRYPARK, DROPPY, [0, 1])
         L += rt_lockeds(DROPPY, full)
         L += seqs([["try_send", "try_send", "try_send_opt", "try_send_rt", "try_send_opt_rt"],
@@ -890,8 +981,8 @@ def _raw(prop, full):
         if not full:
             L = pick(L, 48)
     elif prop == "C16":
-        L += seqs(REWAKE2, DROPPY, [0, 1])
-        L += seqs(REWAKE, SMALLT, [0, 1])
+        L += seqs_at(REWAKE2_AT, DROPPY)
+        L += seqs_at(REWAKE_AT, SMALLT)
         L += [repoll_done("TagL", True), repoll_done("TagP", False)]
         L += [async_waiter(T, c, ss, p, rp) for (T, c, ss, p, rp) in [
             ("TagL", 0, True, "TRY_RECV", 1), ("TagP", 1, True, "RECV", 2), ("TagS", 0, True, "CLOSE_R", 2), ("TagL", 1, True, "NOP", 2),
@@ -907,10 +998,11 @@ def _raw(prop, full):
         if full:
             L += seqs(singles, SEQT, [0, 1, 2, None])
             L += seqs(CURATED, SEQT, [0, 1, 2, None])
-            L += seqs([s for s in all_sequences(2)], SEQT, [1])
-            L += seqs(HALFCLOSE + TRYPARK + REWAKE, SEQT, [0, 1]) + seqs(RING1, SEQT, [1]) + seqs(RING0, SEQT, [0])
+            L += pick(seqs([s for s in all_sequences(2)], SEQT, [1]), 60)
+            SO += so_seqs(SEQT)
+            L += seqs(HALFCLOSE + TRYPARK, SEQT, [0, 1]) + seqs_at(REWAKE_AT, SEQT) + seqs(RING1, SEQT, [1]) + seqs(RING0, SEQT, [0])
             L += seqs(QRING + STALE2, SEQT, [2])
-            L += seqs(REFILL3 + REWAKE2 + DISCSEND + CLOSEDOPS + DRAIN2 + CLONEPACK_CLOSE + CLONEPACK_DISC, SEQT, [1]) + seqs(DISCBUF, SEQT, [2])
+            L += seqs(REFILL3 + DISCSEND + CLOSEDOPS + CLONEPACK_CLOSE + CLONEPACK_DISC, SEQT, [1]) + seqs_at(REWAKE2_AT + DRAIN2_AT, SEQT) + seqs(DISCBUF, SEQT, [2])
         else:
             k = 0
             SQ = DROPPY + ["u32", "Big"]
@@ -924,7 +1016,8 @@ def _raw(prop, full):
             L += seqs(clone_after()[::5], SQ, [1])
             L += seqs(REFILL2[:3], SQ, [2])
     elif prop == "C19":
-        L += seqs(DRAIN2, DROPPY, [0, 1])
+        SO += so_seqs(DROPPY, None, ["drain"]) if full else []
+        L += seqs_at(DRAIN2_AT, DROPPY)
         L += seqs([RING1[4]], DROPPY, [1]) + seqs([RING0[2]], DROPPY, [0]) + seqs([QRING[0], QRING[4]], DROPPY, [2])
         L += drain_states(DROPPY, full)
         L += B(["SEND", "SEND_TO", "SEND_OPT_TO"], ["DRAIN"], DROPPY, [0, 1])
@@ -934,20 +1027,22 @@ def _raw(prop, full):
                    ["arecv_start0", "drain", "try_send", "arecv_poll0w0", "drain"]], DROPPY, [1, 2] if full else [2])
     else:
         raise KeyError(prop)
-    return dedup(L)
+    return dedup(L + (SO if with_so else []))
 
 
 def instances(prop, tier):
     full = tier == "thorough"
     L = _raw(prop, full)
     if full:
-        if len(L) > THOROUGH_MAX:
-            keep = [i for i in L if is_must(prop, i.name)]
-            L = dedup(keep + pick([i for i in L if not is_must(prop, i.name)], THOROUGH_MAX - len(keep)))
+        tmax = THOROUGH_MAX_BY_PROP.get(prop, THOROUGH_MAX)
+        if len(L) > tmax:
+            keep = [i for i in L if is_must(prop, i.name)][:tmax // 2]
+            kn = set(i.name for i in keep)
+            L = dedup(keep + pick([i for i in L if i.name not in kn], tmax - len(keep)))
     else:
         # quick tier: the corner cases that seeded defects need (MUST, taken from the full product) + an even
         # spread of the rest.  Sized so that a check stays far below 15 minutes on a loaded 16-core machine.
-        allq = _raw(prop, True)
+        allq = _raw(prop, True, with_so=False)  # the state x operation matrix is thorough-only
         must = sorted([i for i in allq if is_must(prop, i.name)], key=lambda i: must_rank(prop, i.name))
         # round-robin over the patterns (every pattern is represented before any gets a second instance),
         # at most QUICK_PER_PATTERN per pattern
@@ -986,7 +1081,7 @@ MUST = {
     "C07": [r"^d_(u32|big|pad)_c0_rf_st2_", r"_n1$", r"register_waker", r"poll_exists", r"_st5_"],
     "C08": [r"^q_(unit|za)_", r"^w_.*try_send$", r"send_timeout__try_recv",
             r"__try_recv__(send_timeout__send_timeout|send_opt_timeout__send_opt_timeout|asend_start0__asend_start1)__",
-            r"_c1_try_send__asend_start0__asend_start1__(recv_timeout|recv|try_recv_rt)__", r"_c1_try_send__asend_start0__asend_start1__(try_recv|arecv_start0|stream_start)__"],
+            r"_c1_try_send__asend_start0__asend_start1__(recv_timeout|recv|try_recv_rt)__try_recv$", r"_c1_try_send__asend_start0__asend_start1__(try_recv|arecv_start0|stream_start)__try_recv$"],
     "C09": [r"drop_s__clone_r[01]__clone_r[23]", r"drop_r__clone_s[01]__clone_s[23]", r"_s0k\dp\d_arecv$", r"_s0k\dp\d_asend$",
             r"convert_r"],
     "C10": [r"close_[sr]__clone_s[01]__clone_s[23]__clone_r",
@@ -1033,6 +1128,7 @@ def is_must(prop, name):
 
 # thorough tier: at most this many solver queries per property (about an hour on 16 cores)
 THOROUGH_MAX = 200
+THOROUGH_MAX_BY_PROP = {"C18": 400}
 
 K_PROPS = ["C01", "C02", "C03", "C04", "C05", "C06", "C07", "C08", "C09", "C10", "C11", "C12", "C13", "C14", "C15", "C16",
            "C18", "C19"]
